@@ -297,15 +297,22 @@ impl<'a> ExpressionLoweringManager<'a> {
       closure_variable_name,
       hir::Expression::var_name(closure_variable_name, hir::Type::Id(closure_type.dupe())),
     );
+    let inferred_targs =
+      self.type_lowering_manager.lower_source_types(self.heap, &expression.inferred_type_arguments);
+    let type_arguments = if let Some(id_type) = result_expr.type_().as_id() {
+      id_type.type_arguments.iter().cloned().chain(inferred_targs).collect_vec()
+    } else {
+      inferred_targs
+    };
     statements.push(hir::Statement::ClosureInit {
       closure_variable_name,
       closure_type: closure_type.dupe(),
       function_name: hir::FunctionNameExpression {
         name: function_name,
         type_: method_type,
-        type_arguments: self
-          .type_lowering_manager
-          .lower_source_types(self.heap, &expression.inferred_type_arguments),
+        // Same as for a direct method call: the type arguments of the receiver's class come first,
+        // then the method's own (a method of a generic class is specialised over both).
+        type_arguments,
       },
       context: result_expr,
     });
